@@ -5,7 +5,7 @@ WORK IN PROGRESS header - replaced at the end.
 from lib import *
 from batches import core
 
-WRAP_TRUSTED = ['mul', 'add', 'div', 'rem', 'add_assign']
+WRAP_TRUSTED = ['mul', 'add', 'div', 'rem', 'add_assign', 'axiom_i64_from_u8', 'instructions_clone']
 TRUSTED = list(core.TRUSTED) + WRAP_TRUSTED
 VERUS_ARGS = ['--rlimit', '40']
 RETRY_RLIMIT = 120
@@ -73,6 +73,8 @@ HDR_GHOST = '''
         }
     }
     pub closed spec fn files(&self) -> Seq<FileEntry<R, Offset>> { self.file_names@ }
+    /// view of the standard_opcode_lengths array (element k is the operand count of standard opcode k + 1)
+    pub closed spec fn sol(&self) -> RView { self.standard_opcode_lengths.rv() }
     /// everything but the file table (DW_LNE_define_file appends to it)
     pub closed spec fn same_but_files(&self, o: &Self) -> bool {
         self.encoding == o.encoding && self.offset == o.offset && self.unit_length == o.unit_length
@@ -115,6 +117,145 @@ pub open spec fn op_view<R: Reader<Offset = Offset>, Offset: ReaderOffset>(i: Li
 }
 '''
 
+HELPERS = '''
+/// R-STATICDEFAULT forwarder (verified, not assumed): `A::min_tombstone` with the trait's own contract
+pub(crate) fn verif_min_tombstone<A: ReaderAddress>(size: u8) -> (res: A)
+    requires valid_address_size(size)
+    ensures res.val() == ones(size) - 1
+{ A::min_tombstone(size) }
+
+/// the window [off, off+n) of `b` as a view of its own (what `split`/`truncate` hand out)
+pub open spec fn sub_view(b: RView, off: nat, n: nat) -> RView {
+    RView { root: b.root, start: b.start + off, len: n, be: b.be }
+}
+/// total length of `n` consecutive LEB128 numbers starting at offset p (operands of an unknown standard opcode)
+pub open spec fn lebs_len(b: RView, p: int, n: nat) -> nat
+    decreases n
+{
+    if n == 0 { 0 } else { let k = lebs_len(b, p, (n - 1) as nat); k + b.leb_len(p + k) }
+}
+pub proof fn lemma_lebs_shift(b: RView, n: nat)
+    requires b.len >= 1
+    ensures lebs_len(sub_view(b, 1, (b.len - 1) as nat), 0, n) == lebs_len(b, 1, n)
+    decreases n
+{
+    if n > 0 {
+        lemma_lebs_shift(b, (n - 1) as nat);
+    }
+}
+
+/// vstd has no `FromSpecImpl<u8> for i64` (and the orphan rule forbids adding one): `i64::from(u8)` is value preserving
+#[verifier::external_body]
+pub proof fn axiom_i64_from_u8(v: u8)
+    ensures <i64 as vstd::std_specs::convert::FromSpec<u8>>::obeys_from_spec(),
+            <i64 as vstd::std_specs::convert::FromSpec<u8>>::from_spec(v) == v as i64
+{}
+'''
+
+
+# ---- LineInstruction::parse: decode table written from DWARF 5 section 6.2.5.2 (standard opcodes) and 6.2.5.3
+# (extended opcodes). (name, operand kind, machine instruction as a spec term over the decoded operand o0)
+STD_OPS = [
+    ('DW_LNS_copy', None, 'LineOp::Copy'),
+    ('DW_LNS_advance_pc', 'uleb', 'LineOp::AdvancePc(o0)'),
+    ('DW_LNS_advance_line', 'sleb', 'LineOp::AdvanceLine(o0)'),
+    ('DW_LNS_set_file', 'uleb', 'LineOp::SetFile(o0)'),
+    ('DW_LNS_set_column', 'uleb', 'LineOp::SetColumn(o0)'),
+    ('DW_LNS_negate_stmt', None, 'LineOp::NegateStmt'),
+    ('DW_LNS_set_basic_block', None, 'LineOp::SetBasicBlock'),
+    ('DW_LNS_const_add_pc', None, 'LineOp::ConstAddPc'),
+    ('DW_LNS_fixed_advance_pc', 'u2', 'LineOp::FixedAdvancePc(o0)'),     # "a single uhalf (unencoded) operand"
+    ('DW_LNS_set_prologue_end', None, 'LineOp::SetPrologueEnd'),
+    ('DW_LNS_set_epilogue_begin', None, 'LineOp::SetEpilogueBegin'),
+    ('DW_LNS_set_isa', 'uleb', 'LineOp::SetIsa(o0)'),
+]
+OB = 'header.lh().opcode_base'
+
+
+def decode_bodies():
+    """[(tags, spec expression over header, b0 (view before), i (decoded instruction), fin (view after))]"""
+    out = []
+    # 6.2.5.2 standard opcodes: only opcodes below opcode_base are standard opcodes
+    for name, kind, term in STD_OPS:
+        tag = name.replace('DW_LNS_', '')
+        if kind is None:
+            lets, total = '', '1'
+        elif kind == 'uleb':
+            lets, total = 'let o0 = b0.uleb(1) as int; ', '1 + b0.leb_len(1)'
+        elif kind == 'sleb':
+            lets, total = 'let o0 = b0.sleb(1); ', '1 + b0.leb_len(1)'
+        else:
+            lets, total = 'let o0 = b0.u(1, 2) as int; ', '3'
+        out.append((f'[C04:decode-{tag}]', f'b0.at(0) == constants::{name}.0 && b0.at(0) < {OB} ==> '
+                    f'({{ {lets}op_view(i) == {term} && adv(b0, fin, ({total}) as nat) }})'))
+    # 6.2.5.1 special opcodes: every opcode >= opcode_base, one byte
+    out.append(('[C04:decode-special]', f'b0.at(0) >= {OB} ==> op_view(i) == LineOp::Special(b0.at(0) as int) && adv(b0, fin, 1)'))
+    # unknown standard opcode: 13 <= opcode < opcode_base; operand count from standard_opcode_lengths[opcode - 1]
+    UNK = f'12 < b0.at(0) < {OB}'
+    NARGS = 'header.sol().at(b0.at(0) - 1)'
+    out.append(('[C04:decode-unknown-standard-0]', f'{UNK} && {NARGS} == 0 ==> '
+                f'(i matches LineInstruction::UnknownStandard0(c) && c.0 == b0.at(0)) && adv(b0, fin, 1)'))
+    out.append(('[C04:decode-unknown-standard-1]', f'{UNK} && {NARGS} == 1 ==> '
+                f'(i matches LineInstruction::UnknownStandard1(c, a) && c.0 == b0.at(0) && a as nat == b0.uleb(1)) && adv(b0, fin, 1 + b0.leb_len(1))'))
+    out.append(('[C04:decode-unknown-standard-n][C10:view]', f'{UNK} && {NARGS} >= 2 ==> ({{ let k = lebs_len(b0, 1, {NARGS} as nat); '
+                f'(i matches LineInstruction::UnknownStandardN(c, args) && c.0 == b0.at(0) && window(b0, args.rv(), 1, k)) && adv(b0, fin, 1 + k) }})'))
+    # 6.2.5.3 extended opcodes: 0, ULEB length, sub-opcode, operands; the whole instruction is consumed by its length
+    EXT = 'b0.at(0) == 0'
+    L = 'let n = b0.uleb(1); let p = 1 + b0.leb_len(1); let w = sub_view(b0, p, n); '
+    out.append(('[C04:decode-extended-length]', f'{EXT} ==> ({{ {L} n >= 1 && adv(b0, fin, p + n) }})'))
+    out.append(('[C04:decode-end_sequence]', f'{EXT} ==> ({{ {L} w.at(0) == constants::DW_LNE_end_sequence.0 ==> op_view(i) == LineOp::EndSequence }})'))
+    out.append(('[C04:decode-set_address]', f'{EXT} ==> ({{ {L} w.at(0) == constants::DW_LNE_set_address.0 ==> '
+                f'op_view(i) == LineOp::SetAddress(w.u(1, header.lh().address_size) as int) && n >= 1 + header.lh().address_size }})'))
+    out.append(('[C04:decode-define_file][C10:view]', f'{EXT} ==> ({{ {L} w.at(0) == constants::DW_LNE_define_file.0 && header.lh().version <= 4 ==> '
+                f'(i matches LineInstruction::DefineFile(e) && e.path_name matches AttributeValue::String(s) && ({{ let v = sub_view(w, 1, (n - 1) as nat); let z = s.rv().len; '
+                f'let f = sub_view(v, z + 1, (v.len - z - 1) as nat); '
+                f'z < v.len && window(v, s.rv(), 0, z) && v.at(z as int) == 0 && (forall|j: int| 0 <= j < z ==> v.at(j) != 0) '
+                f'&& e.directory_index as nat == f.uleb(0) && e.timestamp as nat == f.uleb(f.leb_len(0) as int) '
+                f'&& e.size as nat == f.uleb((f.leb_len(0) + f.leb_len(f.leb_len(0) as int)) as int) && e.source is None }})) }})'))
+    out.append(('[C04:decode-define_file-v5][C10:view]', f'{EXT} ==> ({{ {L} w.at(0) == constants::DW_LNE_define_file.0 && header.lh().version >= 5 ==> '
+                f'(i matches LineInstruction::UnknownExtended(c, r) && c.0 == w.at(0) && window(b0, r.rv(), p + 1, (n - 1) as nat)) }})'))
+    out.append(('[C04:decode-set_discriminator]', f'{EXT} ==> ({{ {L} w.at(0) == constants::DW_LNE_set_discriminator.0 ==> '
+                f'op_view(i) == LineOp::SetDiscriminator(sub_view(w, 1, (n - 1) as nat).uleb(0) as int) }})'))
+    out.append(('[C04:decode-unknown-extended][C10:view]', f'{EXT} ==> ({{ {L} (w.at(0) == 0 || w.at(0) > 4) ==> '
+                f'(i matches LineInstruction::UnknownExtended(c, r) && c.0 == w.at(0) && window(b0, r.rv(), p + 1, (n - 1) as nat)) }})'))
+    return out
+
+
+B0 = 'old(input).rv()'
+FIN = 'final(input).rv()'
+
+
+def parse_clauses():
+    out = [f'{tags} res matches Ok(i) ==> ({{ let b0 = {B0}; let fin = {FIN}; {body} }})' for tags, body in decode_bodies()]
+    # the conjunction of the above as one predicate (what `next_instruction` hands on to its callers)
+    out.append(f'[C04:decode] res matches Ok(i) ==> decoded(header, {B0}, i, {FIN})')
+    # what execute needs from the decoder
+    out.append('[C04:special-range] res matches Ok(i) ==> line_op_wf(header.lh(), op_view(i))')
+    # no spurious errors for operand-less opcodes
+    out.append(f'[C04:decode-accepts] {B0}.len > 0 && ({B0}.at(0) >= {OB} || (0 < {B0}.at(0) < {OB} && ({B0}.at(0) == 1 || 6 <= {B0}.at(0) <= 8 || 10 <= {B0}.at(0) <= 11))) ==> res is Ok')
+    out.append(f'[C01:frame] within({B0}, {FIN})')
+    out.append(f'[C01:progress] res is Ok ==> {FIN}.len < {B0}.len')
+    return out
+
+
+def decoded_spec():
+    body = '\n'.join(f'    &&& ({b})' for _, b in decode_bodies())
+    return ("""
+/// `i` is the instruction encoded at the start of `b0` and `fin` is `b0` advanced past it (DWARF 5 6.2.5.1 - 6.2.5.3;
+/// generated from the table STD_OPS / decode_bodies of vx/batches/line.py)
+pub closed spec fn decoded<R: Reader<Offset = Offset>, Offset: ReaderOffset>(header: &LineProgramHeader<R, Offset>, b0: RView, i: LineInstruction<R, Offset>, fin: RView) -> bool {
+""" + body + "\n}\n")
+
+
+INSTR_CLONE = """
+/// `#[derive(Clone)]` on `LineInstructions { input: R }` (Verus gives derived Clone impls of non-Copy types no spec):
+/// the clone holds a clone of the reader, hence the same view (same assumption as `reader_clone`)
+#[verifier::external_body]
+pub fn instructions_clone<R: Reader<Offset = usize>>(x: &LineInstructions<R>) -> (res: LineInstructions<R>)
+    ensures res.iv() == x.iv()
+{ x.clone() }
+"""
+
 H = 'header.lh()'
 VALID = f'[C04:valid-header] valid_line_hdr({H})'
 WF_OLD = f'line_regs_wf({H}, old(self).regs())'
@@ -146,7 +287,7 @@ use crate::read::{Expression, Reader, ReaderOffset, UnitOffset};''')
         'AttributeValue::Sdata(d) => if d < 0 { None } else { Some(d as u64) }, _ => None })'])
     sk.add('read::unit', avi)
 
-    sk.module('read::line', '''use crate::wrapping::Wrapping;
+    sk.module('read::line', '''use crate::wrapping::{Wrapping, wrap_u64};
 use crate::common::{DebugLineOffset, DebugLineStrOffset, DebugStrOffset, DebugStrOffsetsIndex, Encoding, Format, LineEncoding};
 use crate::constants;
 use crate::read::{AttributeValue, Error, Reader, ReaderAddress, ReaderOffset, Result};
@@ -164,6 +305,7 @@ use crate::vspec_line::*;''')
     sk.add(M, ln.item(r'^pub struct IncompleteLineProgram<R, Offset').clean(rejrec=['R', 'Offset']))
     sk.add(M, ln.item(r'^pub struct CompleteLineProgram<R, Offset').clean(rejrec=['R', 'Offset']))
     sk.add(M, OP_VIEW, label='op_view')
+    sk.add(M, HELPERS, label='helpers', owners=['C01', 'C04'])
 
     # ---- trait LineProgram + impls
     tr = ln.item(r'^pub trait LineProgram<R, Offset', label='LineProgram').clean()
@@ -194,6 +336,7 @@ use crate::vspec_line::*;''')
     hi.splice('version', ret='res', ensures=['res as int == self.lh().version'])
     hi.splice('address_size', ret='res', ensures=['res as int == self.lh().address_size'])
     hi.splice('opcode_base', ret='res', ensures=['res as int == self.lh().opcode_base'])
+    hi.splice('standard_opcode_lengths', ret='res', ensures=['[C10:view] res.rv() == self.sol()'])
     hi.own(['C01', 'C04'])
     sk.add(M, hi)
 
@@ -201,6 +344,9 @@ use crate::vspec_line::*;''')
     row = ln.item(r'^impl LineRow \{', label='LineRow')
     # NonZeroU64 (and a datatype constructor used as a function value) are outside the Verus subset
     row.drop(['line', 'column', 'file'])
+    # R-STATICDEFAULT: Verus 0.2026.09.13 panics (vir/sst_to_air.rs "no entry found for key") on a static call of a trait
+    # *default* method at a concrete type (`u64::min_tombstone`). The call goes through a verified generic forwarder.
+    row.custom('R-STATICDEFAULT', 'u64::min_tombstone(', 'verif_min_tombstone::<u64>(')
     row.clean()
     row.insert_members(ROW_GHOST)
     row.own(['C01', 'C04'])
@@ -215,20 +361,35 @@ use crate::vspec_line::*;''')
     row.splice('adjust_opcode', ret='res', requires=[f'[C04:special-range] opcode as int >= {H}.opcode_base'],
                ensures=[f'res as int == opcode as int - {H}.opcode_base'], canary=True)
     ADV = f'line_advance({H}, old(self).regs(), operation_advance as int)'
+    # the 64-bit register arithmetic of gimli (`Wrapping`) does not overflow: the mathematical operation advance and
+    # address advance fit in u64
+    NOWRAP = (f'old(self).regs().op_index + operation_advance <= u64::MAX && '
+              f'{H}.min_inst_len * ((old(self).regs().op_index + operation_advance) / {H}.max_ops) <= u64::MAX')
+    ADV_HINT = '''proof {
+            let h = header.lh(); let r = old(self).regs();
+            let t = r.op_index + operation_advance.0 as int;
+            lemma_line_divmod(t, h.max_ops);
+            lemma_line_divmod(wrap_u64(t) as int, h.max_ops);
+            assert(h.min_inst_len * (t / h.max_ops) >= 0) by (nonlinear_arith) requires h.min_inst_len >= 1, t / h.max_ops >= 0;
+        }'''
     row.splice('apply_operation_advance', ret='res', requires=[VALID, WF_OLD], ensures=[
+        # from the standard: exact for every operand (fails where the u64 arithmetic wraps silently: finding F-line-2)
         f'[C04:advance] res is Ok ==> final(self).regs() == {ADV}.regs',
         f'[C04:advance-checked] res is Err <==> {ADV}.err',
+        # the same two clauses restricted to operands whose advance fits the 64-bit registers
+        f'[C04:advance-nowrap] {NOWRAP} ==> (res is Ok ==> final(self).regs() == {ADV}.regs)',
+        f'[C04:advance-nowrap-checked] {NOWRAP} ==> (res is Err <==> {ADV}.err)',
         '[C04:monotone] final(self).regs().address >= old(self).regs().address',
         f'[C04:monotone] old(self).regs().address <= addr_max({H}) ==> final(self).regs().address <= addr_max({H})',
         'res is Err ==> final(self).regs().address == old(self).regs().address',
-        WF_NEW], canary=True)
+        WF_NEW], before=[('self.address = self', ADV_HINT)], canary=True)
     SPEC = f'line_exec({H}, old(self).regs(), LineOp::Special(opcode as int))'
     row.splice('exec_special_opcode', ret='res', requires=[VALID, WF_OLD, f'[C04:special-range] opcode as int >= {H}.opcode_base'], ensures=[
         f'[C04:special] res is Ok ==> final(self).regs() == {SPEC}.regs',
         f'[C04:special-checked] res is Err <==> {SPEC}.err',
         '[C04:monotone] final(self).regs().address >= old(self).regs().address',
         f'[C04:monotone] old(self).regs().address <= addr_max({H}) ==> final(self).regs().address <= addr_max({H})',
-        WF_NEW], canary=True)
+        WF_NEW], before=[('self.apply_line_advance(line_base', 'proof { axiom_i64_from_u8(line_advance); lemma_line_special(header.lh(), opcode as int); }')], canary=True)
     PH = 'old(program).hdr().lh()'
     EX = f'line_exec({PH}, old(self).regs(), op_view(instruction))'
     row.splice('execute', ret='res', requires=[
@@ -244,6 +405,58 @@ use crate::vspec_line::*;''')
         '[C04:define-file] !(instruction is DefineFile) ==> final(program).hdr() == old(program).hdr()',
     ], canary=True)
     sk.add(M, row)
+
+    # ---- FileEntry::parse (DW_LNE_define_file / version <= 4 file_names entries: path already read; three ULEB128s)
+    fe = ln.item(r'^impl<R, Offset> FileEntry<R, Offset>', label='FileEntry').keep_only(['parse']).clean()
+    fe.own(['C01', 'C04'])
+    fe.splice('parse', ret='res', ensures=[
+        '[C04:file-entry-v4] res matches Ok(e) ==> ({ let v = old(input).rv(); let l0 = v.leb_len(0) as int; let l1 = v.leb_len(l0) as int; let l2 = v.leb_len(l0 + l1) as int; '
+        'e.path_name == AttributeValue::<R, Offset>::String(path_name) && e.directory_index as nat == v.uleb(0) && e.timestamp as nat == v.uleb(l0) '
+        '&& e.size as nat == v.uleb(l0 + l1) && e.source is None && (forall|k: int| 0 <= k < 16 ==> e.md5[k] == 0) && adv(v, final(input).rv(), (l0 + l1 + l2) as nat) })',
+        '[C01:frame] within(old(input).rv(), final(input).rv())'])
+    sk.add(M, fe)
+
+    # ---- LineInstruction::parse
+    li = ln.item(r'^impl<R, Offset> LineInstruction<R, Offset>', label='LineInstruction')
+    li.custom('R-CLONE', 'header.standard_opcode_lengths().clone()', 'reader_clone(header.standard_opcode_lengths())')
+    li.custom('R-CLONE', 'let mut args = input.clone();', 'let mut args = reader_clone(input);')
+    # same as R-CLOSURE: the wildcard loop variable gets a name so that the loop invariant can count iterations
+    li.custom('R-CLOSURE', 'for _ in 0..num_args {', 'for _verif_i in 0..num_args {')
+    li.clean()
+    li.own(['C01', 'C04'])
+    li.splice('parse', ret='res', requires=[VALID], canary=True, ensures=parse_clauses(), loops={
+        0: 'invariant adv(args.rv(), input.rv(), lebs_len(args.rv(), 0, _verif_i as nat)), args.rv() == sub_view(old(input).rv(), 1, (old(input).rv().len - 1) as nat), old(input).rv().len >= 1, 12 < old(input).rv().at(0) < header.lh().opcode_base,'},
+        before=[('let len = input.offset_from(&args);', 'proof { lemma_lebs_shift(old(input).rv(), num_args as nat); }')])
+    sk.add(M, li)
+
+    # ---- LineInstructions (iterator protocol, DESIGN 5.2)
+    sk.add(M, ln.item(r'^pub struct LineInstructions<R: Reader>').clean(offset=False, rejrec=['R']))
+    sk.add(M, ln.item(r'^pub struct LineSequence<R: Reader>').clean(offset=False, rejrec=['R']))
+    sk.add(M, INSTR_CLONE, label='instructions_clone')
+    sk.add(M, decoded_spec(), label='decoded')
+    it1 = ln.item(r'^impl<R: Reader> LineInstructions<R> \{\s*fn remove_trailing', label='LineInstructions(remove_trailing)')
+    it1.custom('R-CLONE', 'self.input.clone()', 'reader_clone(&self.input)')
+    it1.clean()
+    it1.own(['C01', 'C04'])
+    it1.insert_members('    /// ghost: the instructions still to be decoded\n    pub closed spec fn iv(&self) -> RView { self.input.rv() }')
+    it1.splice('remove_trailing', ret='res',
+               requires=['[C04:sequence-slice-pre] self.iv().root == other.iv().root && self.iv().start <= other.iv().start'],
+               ensures=['[C04:sequence-slice][C10:view] res matches Ok(s) ==> window(self.iv(), s.iv(), 0, (other.iv().start - self.iv().start) as nat)',
+                        '[C04:sequence-slice] other.iv().start <= self.iv().start + self.iv().len ==> res is Ok'], canary=True)
+    sk.add(M, it1)
+    it2 = ln.item(r'^impl<R: Reader> LineInstructions<R> \{\s*#\[inline\(always\)\]', label='LineInstructions').clean()
+    it2.own(['C01', 'C04'])
+    it2.splice('next_instruction', ret='res', requires=[VALID], canary=True, ensures=[
+        '[C01:iter-end] old(self).iv().len == 0 ==> (res matches Ok(None)) && final(self).iv() == old(self).iv()',
+        '[C01:iter-err-empties] res is Err ==> final(self).iv().len == 0',
+        '[C01:iter-progress] res matches Ok(Some(_)) ==> final(self).iv().len < old(self).iv().len',
+        '[C01:iter-none-only-at-end] res matches Ok(None) ==> old(self).iv().len == 0',
+        '[C01:frame] final(self).iv().root == old(self).iv().root && final(self).iv().be == old(self).iv().be',
+        '[C01:frame] !(res is Err) ==> within(old(self).iv(), final(self).iv())',
+        '[C04:special-range] res matches Ok(Some(i)) ==> line_op_wf(header.lh(), op_view(i))',
+        '[C04:next-instruction] res matches Ok(Some(i)) ==> decoded(header, old(self).iv(), i, final(self).iv())',
+    ])
+    sk.add(M, it2)
     return sk
 
 
